@@ -316,29 +316,39 @@ func checkRelaxedTime(r *Report, p *Prog) {
 	a := NewAnalysis(p)
 	fc := a.Ctx(str)
 	r.Fn(p.FnName(str))
+	// canonical: v is Format(xsd layout) of the instant's Round(Millisecond).UTC() and nothing else
+	canonical := func(v ssa.Value) (bool, string) {
+		for {
+			if cv, ok := v.(*ssa.Convert); ok {
+				v = cv.X
+				continue
+			}
+			break
+		}
+		c, ok := v.(*ssa.Call)
+		if !ok || !calleeIs(c, "(time.Time).Format") {
+			return false, "not a time.Time.Format result"
+		}
+		layout, _ := constStr(c.Call.Args[1])
+		chain := timeChain(c.Call.Args[0])
+		detail := fmt.Sprintf("Format(%q) of %s", layout, strings.Join(chain, "."))
+		hasRound, hasUTC, other := false, false, false
+		for _, s := range chain[1:] {
+			switch s {
+			case "Round(1ms)":
+				hasRound = true
+			case "UTC()":
+				hasUTC = true
+			default:
+				other = true
+			}
+		}
+		return hasRound && hasUTC && !other && strings.HasPrefix(layout, "2006-01-02T15:04:05") && strings.HasSuffix(layout, "Z07:00"), detail
+	}
 	okS := false
 	detail := ""
 	for _, ret := range fc.Returns() {
-		v := Resolve(ret.Results[0])
-		if c, ok := v.(*ssa.Call); ok && calleeIs(c, "(time.Time).Format") {
-			layout, _ := constStr(c.Call.Args[1])
-			chain := timeChain(c.Call.Args[0])
-			detail = fmt.Sprintf("Format(%q) of %s", layout, strings.Join(chain, "."))
-			hasRound, hasUTC, other := false, false, false
-			for _, s := range chain[1:] {
-				switch s {
-				case "Round(1ms)":
-					hasRound = true
-				case "UTC()":
-					hasUTC = true
-				default:
-					other = true
-				}
-			}
-			if hasRound && hasUTC && !other && strings.HasPrefix(layout, "2006-01-02T15:04:05") && strings.HasSuffix(layout, "Z07:00") {
-				okS = true
-			}
-		}
+		okS, detail = canonical(Resolve(ret.Results[0]))
 	}
 	r.Check(okS, rule, p.FnName(str)+": marshals Round(Millisecond).UTC() in the xsd:dateTime layout", p.Pos(str.Pos()), detail, "marshalling is "+detail)
 	mt := p.MustFunc("saml", "RelaxedTime", "MarshalText")
@@ -346,6 +356,14 @@ func checkRelaxedTime(r *Report, p *Prog) {
 	for _, c := range methodCallsOn(mt, "("+modPath+".RelaxedTime).String") {
 		_ = c
 		okM = true
+	}
+	if !okM {
+		// the same canonical expression written out in place
+		for _, ret := range a.Ctx(mt).Returns() {
+			if okC, _ := canonical(Resolve(ret.Results[0])); okC {
+				okM = true
+			}
+		}
 	}
 	r.Check(okM, rule, p.FnName(mt)+": text form is String()", p.Pos(mt.Pos()), "MarshalText -> String", "MarshalText does not use the canonical String() form")
 
@@ -397,6 +415,51 @@ func checkRelaxedTime(r *Report, p *Prog) {
 							why = "through " + shortFn(hc.Call.StaticCallee()) + ": " + whyH
 						}
 					}
+				}
+			}
+			// nested fallbacks sharing one tail: every value that reaches the merged variable is the result of a
+			// time.Parse call, and comes through edges taken only when that very call reported no error
+			if ph, isPhi := timeChainBase(v).(*ssa.Phi); !okA && isPhi && len(chain) == 2 && chain[1] == "Round(1ms)" {
+				okAll, n := true, 0
+				var walk func(x ssa.Value, cond *bddNode, seen map[ssa.Value]bool)
+				walk = func(x ssa.Value, cond *bddNode, seen map[ssa.Value]bool) {
+					if seen[x] {
+						return
+					}
+					seen[x] = true
+					if q, ok := x.(*ssa.Phi); ok {
+						for i, e := range q.Edges {
+							pb := q.Block().Preds[i]
+							walk(e, B.And(cond, B.And(fu.Cond(pb), fu.edgeCond(pb, q.Block()))), seen)
+						}
+						return
+					}
+					if cond == B.False {
+						return
+					}
+					n++
+					ex, ok := x.(*ssa.Extract)
+					if !ok || ex.Index != 0 {
+						okAll = false
+						why = "a value that is not the result of time.Parse (" + fu.AP(x) + ") reaches the stored instant"
+						return
+					}
+					pc, ok := ex.Tuple.(*ssa.Call)
+					if !ok || pc.Call.StaticCallee() == nil || !(calleeName(&pc.Call) == "time.Parse" || calleeName(&pc.Call) == "time.ParseInLocation") {
+						okAll = false
+						why = "a value that is not the result of time.Parse (" + fu.AP(x) + ") reaches the stored instant"
+						return
+					}
+					nm := "isnil(" + fu.AP(ex.Tuple) + "#1)"
+					if !(B.HasVar(nm) && B.Implies(cond, B.Var(nm))) {
+						okAll = false
+						why = "the value parsed at " + p.InstrPos(pc) + " is stored although time.Parse reported an error"
+					}
+				}
+				walk(ph, fu.Cond(b), map[ssa.Value]bool{})
+				if okAll && n > 0 {
+					r.Check(true, rule, cons, p.InstrPos(in), fmt.Sprintf("%d parse results merged, then Round(1ms)", n), "")
+					continue
 				}
 			}
 			if okA {
@@ -1202,22 +1265,47 @@ func checkDurationUnits(r *Report, p *Prog) {
 			}
 			// taken under d < 0 and the "-" prefix is added in the same block
 			pb := ph.Block().Preds[i]
+			// the negated edge is taken exactly under d < 0 (whichever way the test is written)
 			neg := false
-			if len(pb.Preds) == 1 {
-				if iff, ok := pb.Preds[0].Instrs[len(pb.Preds[0].Instrs)-1].(*ssa.If); ok && pb.Preds[0].Succs[0] == pb {
-					if lt, ok := iff.Cond.(*ssa.BinOp); ok && lt.Op == token.LSS && lt.X == ssa.Value(mt.Params[0]) {
-						if z, okz := constNum(lt.Y); okz && z == 0 {
+			{
+				an := NewAnalysis(p)
+				fcn := an.Ctx(mt)
+				fcn.ensureConds()
+				reach := an.B.And(fcn.Cond(pb), fcn.edgeCond(pb, ph.Block()))
+				for _, nm := range an.B.Support(reach) {
+					ai := an.Atoms[nm]
+					if ai == nil || ai.Kind != "lt" || len(ai.Vals) != 2 {
+						continue
+					}
+					if z, okz := constNum(ai.Vals[1]); okz && z == 0 && isParam(ai.Vals[0]) && an.B.Implies(reach, an.B.Var(nm)) {
+						// and the other edge under its negation
+						po := ph.Block().Preds[1-i]
+						other := an.B.And(fcn.Cond(po), fcn.edgeCond(po, ph.Block()))
+						if an.B.Implies(other, an.B.Not(an.B.Var(nm))) {
 							neg = true
 						}
 					}
 				}
 			}
+			// the "-" prefix is added on that branch only: "-" + x in the block, or a text phi at the merge whose
+			// operand from this branch starts with "-" and whose other operand does not
 			pre := false
 			for _, in := range pb.Instrs {
 				if cat, ok := in.(*ssa.BinOp); ok && cat.Op == token.ADD {
 					if s, _ := constStr(cat.X); s == "-" {
 						pre = true
 					}
+				}
+			}
+			for _, in := range ph.Block().Instrs {
+				tp, ok := in.(*ssa.Phi)
+				if !ok || !isStringType(tp.Type()) || len(tp.Edges) != 2 {
+					continue
+				}
+				mine, okm := constStr(tp.Edges[i])
+				theirs, oko := constStr(tp.Edges[1-i])
+				if okm && oko && strings.HasPrefix(mine, "-") && !strings.HasPrefix(theirs, "-") && strings.TrimPrefix(mine, "-") == theirs {
+					pre = true
 				}
 			}
 			okAbs = neg && pre
